@@ -52,7 +52,8 @@ def run(ctx):
             dist["replay_ok"] += 1
         else:
             dist["replay_diverge"] += 1
-            ctx.broke("correspondence", "E-CONC lock-step bq mode=%s seed=%d env=%s" % (r["mode"], r["seed"], r["env"]), "%s\n%s" % (r["replay"], r["text"]))
+            if dist["replay_diverge"] <= 6:
+              ctx.broke("correspondence", "E-CONC lock-step bq mode=%s seed=%d env=%s" % (r["mode"], r["seed"], r["env"]), "%s\n%s" % (r["replay"], r["text"]))
         if not samples and f["sleep"] and f["woken"] and 40 < len(r["lines"]) < 160:
             samples.append(r["lines"][:80])
     vruns, vdist = view_pass(ctx, "C02", 300, 3000)
